@@ -21,7 +21,7 @@ var errInjectedAbort = errors.New("verif: injected abort (simulated time-out)")
 
 // historyCheck runs the object sequence on one much-used evaluator A and, at
 // every step, on a freshly prepared evaluator B holding A's variables.
-func historyCheck(c *ev.Ctx, id, class, script string, noOpt bool, vars map[string]model.Value, objs []map[string]model.Value, abortAt map[int]int64, cancelRun int, cancelStep int64) (judged int, faults map[string]int) {
+func historyCheck(c *ev.Ctx, id, class, script string, noOpt bool, vars map[string]model.Value, objs []map[string]model.Value, abortAt map[int]int64, cancelRun int, cancelStep int64, hostSets map[int]map[string]model.Value) (judged int, faults map[string]int) {
 	faults = map[string]int{}
 	// a real context (set before Prepare) that the hook cancels during run `cancelRun`:
 	// a genuine time-out inside the history; later runs happen under the expired context
@@ -49,6 +49,11 @@ func historyCheck(c *ev.Ctx, id, class, script string, noOpt bool, vars map[stri
 	}
 	for i, o := range objs {
 		obj, _ := eng.FieldsToMap(o)
+		// the host stores variables between two runs (names earlier runs read as fields)
+		for name, v := range hostSets[i] {
+			a.E.SetVariable(name, eng.ToObject(v))
+			faults["host-set-variable"]++
+		}
 		if i == cancelRun {
 			a.OnStep = func(m *vm.VM, ip int, op code.Opcode) error {
 				if a.Steps() > cancelStep {
@@ -178,7 +183,29 @@ func c07(c *ev.Ctx) {
 		if r.Intn(4) == 0 {
 			cancelRun, cancelStep = r.Intn(hlen-1), int64(r.Intn(80))
 		}
-		judged, faults := historyCheck(c, id, "history", script, r.Intn(2) == 0, env.Vars, objs, abortAt, cancelRun, cancelStep)
+		// between runs the host may store a variable named like a field the script reads
+		hostSets := map[int]map[string]model.Value{}
+		if r.Intn(2) == 0 {
+			for q := 1 + r.Intn(2); q > 0; q-- {
+				at := 1 + r.Intn(hlen-1)
+				if hostSets[at] == nil {
+					hostSets[at] = map[string]model.Value{}
+				}
+				switch r.Intn(5) {
+				case 0:
+					hostSets[at]["I1"] = gen.RandScalar(r, model.KInt)
+				case 1:
+					hostSets[at]["S1"] = gen.RandScalar(r, model.KStr)
+				case 2:
+					hostSets[at]["B1"] = gen.RandScalar(r, model.KBool)
+				case 3:
+					hostSets[at]["I2"] = model.Int(int64(r.Intn(5)))
+				default:
+					hostSets[at][fmt.Sprintf("C%d", 1+r.Intn(k))] = model.Bool(r.Intn(2) == 0)
+				}
+			}
+		}
+		judged, faults := historyCheck(c, id, "history", script, r.Intn(2) == 0, env.Vars, objs, abortAt, cancelRun, cancelStep, hostSets)
 		nf := 0
 		for k, v := range faults {
 			c.Count("faults/"+k, v)
